@@ -33,7 +33,7 @@ RULE = ('(i) model tie, exact: random rational / dyadic matrices n = 1..7 (defin
         '`pd check 1/100 n ...` (n <= 52 quick / 80 thorough) and, with a floating-point Cholesky hint, as `pd dom 1/100 n ...` '
         '(sound hint-based certificate, all sizes up to 135 / 262); notpd = the verified checker proves that this assembled '
         'matrix violates the bound '
-        '(VIOLATION when the mesh is inside the quantifier: closed curve, aspect <= 32); ok = certificate checked. '
+        '(VIOLATION on every mesh, open or closed curve, any aspect); ok = certificate checked. '
         'Cross-check with numpy eigvalsh of the scaled symmetric part (sign disagreement = broken obligation). '
         '(iii) consequences on the same meshes: 4x4 child blocks of the hierarchical estimator certified by the driver and '
         'their three scaling factors > 0, the h-h/2 fine matrix certified and the estimator value real and >= 0, det > 0. '
@@ -54,8 +54,7 @@ TRUSTED = [
 ASSUMPTIONS = [
     'the bound is decided per assembled binary64 matrix (exact rational arithmetic on the stored values), not for the '
     'exact Galerkin matrix and not for all meshes',
-    'quantifier taken from properties.jsonl: closed curves, reachable meshes with aspect h_x^2/h_t <= 32; matrices on the '
-    'open UnitInterval or beyond the aspect bound are certified and reported but a failure there is not flagged',
+    'quantifier: every mesh the code accepts (open or closed curve, any aspect ratio, user-supplied time grids)',
     'binary64 effects inside numpy.linalg.solve / the estimators are outside every theorem (the consequences are '
     'theorems about exact real arithmetic on the stored matrix)',
 ]
@@ -322,6 +321,19 @@ def build_mesh(rng, curve, family, size):
     tgrid = [0, 1]
     if family == 'time-grid':
         tgrid = rng.choice([[0, 0.5, 1], [0, 1, 2], [0, 0.25, 1], [0, 1, 3]])
+    if family == 'thin-slabs':
+        # user-supplied time grids with many slabs that are very thin against h_x^2 (time stepping schemes, grids graded
+        # towards t = 0): elements flat in time, couplings between time-separated slabs are narrow ridges along x = y
+        kind = rng.choice(['equal', 'graded', 'equal-then-coarse'])
+        nsl = max(3, min(16, size // max(1, len(gamma.pw_gamma))))
+        if kind == 'equal':
+            h = rng.choice([3e-5, 1e-4, 2.0**-12])
+            tgrid = [h * k for k in range(nsl + 1)]
+        elif kind == 'graded':
+            tgrid = [0.0] + [2.0**-(2 * (nsl - k)) for k in range(1, nsl + 1)]
+        else:
+            h = rng.choice([3e-5, 2.0**-14])
+            tgrid = [h * k for k in range(nsl - 2)] + [1e-2, 0.1, 1.0]
     with quiet():
         mesh = MeshParametrized(gamma, initial_time_mesh=tgrid)
     hist.append(['init', curve, tgrid])
@@ -343,7 +355,7 @@ def build_mesh(rng, curve, family, size):
             do(['refine_axis', i, ax])
 
     with quiet():
-        if family in ('initial', 'time-grid'):
+        if family in ('initial', 'time-grid', 'thin-slabs'):
             pass
         elif family == 'uniform':
             while len(mesh.leaf_elements) * 4 <= size:
@@ -444,7 +456,10 @@ def dom_line(A, R, mu=MU):
 
 
 def in_quantifier(gamma, elems):
-    return bool(gamma.closed) and all(aspect(e) <= 32.0 for e in elems)
+    """The property says 'on every mesh': open or closed curve, any aspect ratio.  (Until round 5 failures on the open
+    interval and on elements with h_x^2/h_t > 32 were only reported; the shipped code has lambda_min >= 0.14 there too -
+    thin-slab time grids with aspect 3e4, space-only refinement with aspect 1e-5 - so nothing is excluded any more.)"""
+    return True
 
 
 def mesh_plan(rng, tier, boost):
@@ -453,7 +468,8 @@ def mesh_plan(rng, tier, boost):
     plan = []
     for c in CURVES:
         plan.append((c, 'initial', 0))
-    fams = ['uniform', 'random', 'dorfler-iso', 'dorfler-aniso', 'point-graded', 'refine-grading', 'anisotropic', 'time-grid']
+    fams = ['uniform', 'random', 'dorfler-iso', 'dorfler-aniso', 'point-graded', 'refine-grading', 'anisotropic', 'time-grid',
+            'thin-slabs']
     reps = (3 if tier == 'quick' else 5) * (2 if boost else 1)
     for r in range(reps):
         for k, f in enumerate(fams):
@@ -606,7 +622,7 @@ def search(res, tier, boost=False):
             res.count(('block', curve, family, repr(e)), True)
             desc = dict(curve=curve, family=family, elem=repr(e), history=hist, block=[[float(v).hex() for v in r] for r in S],
                         scaling_estim=scal, aspect=aspect(e))
-            ok_q = bool(gamma.closed) and aspect(e) <= 32.0
+            ok_q = True
             if ok_q and not all(s > 0 for s in scal):
                 res.violation('C13:scaling-estim-not-positive:%s:%s' % (curve, family), desc)
             lines.append(pd_line(S))
@@ -650,7 +666,7 @@ def search(res, tier, boost=False):
             continue
         o = run_driver([pd_line(Af)])[0]
         res.bump('hh2_fine_matrices_certified' if o.startswith('ok') else 'hh2_fine_matrices_not_certified')
-        fine_inq = inq and all(aspect(e) <= 32.0 for e in elems)     # quarters have half the aspect of the parent
+        fine_inq = inq
         if fine_inq and o.startswith('notpd'):
             res.violation('C13:hh2-fine-matrix-not-positive-definite:%s:%s' % (curve, family),
                           dict(desc, driver=o, matrix=[[float(v).hex() for v in r] for r in Af]))
